@@ -43,6 +43,19 @@ type Term struct {
 // engine assumes 0 <= t wherever such a term is created (see leafAssume).
 var knownNonNeg = map[*Term]bool{}
 
+func isNonNeg(t *Term) bool {
+	if knownNonNeg[t] {
+		return true
+	}
+	if t.Op == "int" {
+		return t.Int.Sign() >= 0
+	}
+	if t.Op == "ite" {
+		return isNonNeg(t.Args[1]) && isNonNeg(t.Args[2])
+	}
+	return false
+}
+
 var (
 	termTab  = map[string]*Term{}
 	termSeq  int
@@ -561,7 +574,7 @@ func Select(a, i *Term) *Term {
 				a = a.Args[0]
 				continue
 			}
-			if (knownNonNeg[a.Args[1]] && i.Op == "int" && i.Int.Sign() < 0) || (knownNonNeg[i] && a.Args[1].Op == "int" && a.Args[1].Int.Sign() < 0) {
+			if (isNonNeg(a.Args[1]) && i.Op == "int" && i.Int.Sign() < 0) || (isNonNeg(i) && a.Args[1].Op == "int" && a.Args[1].Int.Sign() < 0) {
 				a = a.Args[0]
 				continue
 			}
